@@ -15,13 +15,14 @@ never be silently mis-encoded.
 """
 from __future__ import annotations
 
+import os
 import ast
 from pathlib import Path
 from typing import Any, Dict, List, Optional
 
 import z3
 
-SRC = Path("/repo/src/exo/core/proc_eqv.py")
+SRC = Path(os.environ.get("VERIF_REPO", "/repo") + "/src/exo/core/proc_eqv.py")
 
 
 class Py2SmtUnsupported(Exception):
